@@ -122,6 +122,14 @@ def gen(rng, tier):
     for a, b in [("a\x00b", "a\x00c"), ("\x00", "\x00\x00"), ('a"b', 'a"c'), ("x\\y", "x\\z"), ("\x00ab\x00", "ab\x00")]:
         cases.append({"a": a, "b": b, "drive": "tighten", "bytes": True, "shown": True, "quiet": True})
         cases.append({"a": a, "b": b, "drive": "tighten", "shown": True, "quiet": True})
+    # strings with line breaks rendered by the YAML formatter (block scalars; a changed newline is shown as a marked U+23CE):
+    # what is shown on red / green must be what the script removes / inserts
+    nl = [("ab", "a\nb"), ("a\nb", "ab"), ("x", "x\n"), ("\na", "a"), ("a", "\na"), ("a\nb\n", "a\nc\nb\n"),
+          ("a\n\nb", "a\nb"), ("ab\nba", "ba\nab"), ("\n", "\n\n"), ("a\nb", "a\nb\nc")]
+    for _ in range(40 if quick else 600):
+        nl.append(("".join(rng.choice("ab\n") for _ in range(rng.randint(1, 7))), "".join(rng.choice("ab\n") for _ in range(rng.randint(1, 7)))))
+    for a, b in nl:
+        cases.append({"a": a, "b": b, "drive": "tighten", "shown": True, "yaml": True, "quiet": True})
     # several comparisons of the SAME shape alive at once, refined in turns
     for _ in range(40 if quick else 600):
         k = rng.randint(2, 4)
@@ -171,6 +179,31 @@ def _shown(a, b):
         if m in text:
             text[m] += ch
     return {"plain": text[0], "removed": text[1], "inserted": text[2]}
+
+
+def _shown_yaml(a, b):
+    """The coloured rendering of the same string diff through the YAML formatter: the characters on red / green with the
+    layout of block scalars (line breaks, indentation) and the combining strike / plus marks taken out; U+23CE stands for a
+    changed newline.  Only used on strings over {a, b, newline}."""
+    import io
+    from graphtage import StringNode
+    from graphtage import yaml as gy
+    from graphtage.printer import Printer
+    from harness.streams import render as R
+    d = StringNode(a).diff(StringNode(b))
+    buf = io.StringIO()
+    p = Printer(out_stream=buf, ansi_color=True, quiet=True)
+    gy.YAMLFormatter.DEFAULT_INSTANCE.print(p, d)
+    raw = buf.getvalue()
+    try:
+        seq = R.recover(raw)
+    except Exception as e:          # noqa
+        return {"unreadable": str(e)[:100], "raw": raw[:200]}
+    text = {1: "", 2: ""}
+    for ch, m in seq:
+        if m in text and ch in "abcx\u23ce":
+            text[m] += ch
+    return {"removed": text[1], "inserted": text[2]}
 
 
 def _impl_multi(case):
@@ -258,6 +291,8 @@ def _impl(case):
            "tighten_after": bool(e.tighten_bounds())}
     if case.get("shown"):
         obs["shown"] = _shown(a, b)
+    if case.get("yaml"):
+        obs["shown_yaml"] = _shown_yaml(a, b)
     return obs
 
 
@@ -327,6 +362,15 @@ def _monitor_shown(case, obs):
     if not sh:
         return []
     a, b = case["a"], case["b"]
+    shy = obs.get("shown_yaml")
+    if shy:
+        if "unreadable" in shy:
+            return [_hit("string-shown-unreadable:yaml", f"{a!r} -> {b!r}: the YAML rendering cannot be read back: {shy}")]
+        ops = _ops(case, obs)[1]
+        nrem = sum(1 for op in ops if op[0] in "rs")
+        nins = sum(1 for op in ops if op[0] in "is")
+        if len(shy["removed"]) != nrem or len(shy["inserted"]) != nins:
+            return [_hit("string-shown-differs-from-script:yaml", f"{a!r} -> {b!r}: the YAML rendering shows {len(shy['removed'])} removed / {len(shy['inserted'])} inserted characters ({shy}), the script removes {nrem} and inserts {nins}")]
     if "unreadable" in sh:
         return [_hit("string-shown-unreadable", f"{a!r} -> {b!r}: the rendering cannot be read back: {sh}")]
     esc = (lambda x: x)
